@@ -261,3 +261,36 @@ Qed.
 Lemma inv_holds_custody l0 s : Inv l0 s ->
   holds_C11_custody (fst s) (l0 MOD (bid_denom (fst s))) (snd s MOD (bid_denom (fst s))) = true.
 Proof. intros H. unfold holds_C11_custody. rewrite (inv_custody l0 s H). apply Z.eqb_refl. Qed.
+
+(* an accepted bid: it improves on the standing one, and the outbid bidder is made whole in the
+   same step *)
+Lemma bid_facts l0 a l who denom amt now xd xa a' l' :
+  bid_denom a <> lot_denom a -> InvOpen l0 a l \/ InvClosed l0 a l -> 0 <= who ->
+  bid a l who denom amt now xd xa = Ok (a', l') ->
+  holds_C11_improves a amt = true /\
+  (forall p, bidder a = Some p -> p <> who ->
+     l' p (bid_denom a) = l p (bid_denom a) + buy a /\ l' p (bid_denom a) = l0 p (bid_denom a)) /\
+  bids a' = (who, amt) :: bids a /\ bidder a' = Some who.
+Proof.
+  intros Hd HI Hw. unfold bid.
+  destruct (Z.eqb_spec (status a) 2) as [E2|N2]; [discriminate|].
+  destruct HI as [HO|[Hc _]]; [|contradiction].
+  destruct (bid_check a denom amt xd xa) as [[[pay s'] b']| |] eqn:C; try discriminate.
+  intros S. pose proof HO as (Hst & Hbuy & Hsb & Hbids & Hl).
+  destruct (bid_check_amounts _ _ _ _ _ _ _ _ C Hbuy) as [Hp Hb'].
+  destruct (settle_inv l0 a l who amt now pay s' b' a' l' Hd HO Hw Hp Hb' S) as (HO' & -> & Href & _).
+  split; [exact (bid_check_improves _ _ _ _ _ _ C Hsb)|]. split; [|split; reflexivity].
+  intros p Hb Hne. specialize (Href p Hb). destruct (Z.eqb_spec p who); [contradiction|].
+  split; [lia|]. rewrite Href, Hl. unfold paid. rewrite Hb in *.
+  destruct (bids a) as [|[w' ?] ?]; [contradiction|]. destruct Hbids as [<- Hp0].
+  unfold MOD. eqb_cases; lia.
+Qed.
+
+Lemma improves_spelled a amt p : holds_C11_improves a amt = true -> bidder a = Some p ->
+  exists c, change (factor a) (if reverse (var a) then sell a else buy a) = Some c /\
+            (if reverse (var a) then amt <= sell a - c else buy a + c <= amt).
+Proof.
+  unfold holds_C11_improves. intros H Hb. rewrite Hb in H.
+  destruct (change (factor a) (if reverse (var a) then sell a else buy a)) as [c|]; [|discriminate].
+  exists c. split; [reflexivity|]. destruct (reverse (var a)); lia.
+Qed.
